@@ -6,6 +6,7 @@ import (
 	"go/token"
 	"go/types"
 	"sort"
+	"strconv"
 	"strings"
 
 	"golang.org/x/tools/go/ssa"
@@ -23,7 +24,7 @@ func runC12(r *engine.Run) {
 	r.Rule("AGREE-embed", "writer and reader of the embedded shared-prefix child agree: routingNode.Serialize appends child hash, big-endian child weight, value hash, key in that order and DeserializeNode reads offsets [0:32], [32:40], [40:72], [72:] with the same byte order; collectNodes emits and deserializeTrie consumes in the same pre-order (node first, then children by ascending index / the single value)")
 	r.Rule("AGREE-linkback", "whenever markToCollect is called on a position read from a node (a branch's child slot, a shared-prefix node's value) its result is stored back into that same slot: a child that had to be loaded from storage becomes part of the trie that is exported")
 	r.Rule("EXPORT-kind", "collectNodes replaces an unrequested node by a bare hash reference only when it is a branch; shared-prefix and value nodes are exported in full, because the importer overwrites the parent's embedded copy with what the export contains and a later delete needs the sibling's kind and key to merge")
-	r.Rule("AGREE-limits", "the two wire entry points (path export import and block-proof verification) configure the same CBOR decoding limits: a proof or export that one accepts is not rejected by the other for its size")
+	r.Rule("AGREE-limits", "the two wire entry points (path export import and block-proof verification) configure the same CBOR decoding limits (set in the function, in a package-local helper, or where a shared package-level decoding mode is built): a proof or export that one accepts is not rejected by the other for its size; and the importer raises MaxArrayElements above the library default (an export is one array of node records that grows with the number of requested keys)")
 	r.Rule("EXH-W", "see C09: markToCollect resolves a collapsed position before interpreting it")
 	r.Rule("ORDER-hashfresh", "see C10: in the Serialize methods of the hashed node kinds every read of a cached hash (the receiver's hash field, a child's Hash()) is reached only on paths where the receiver's dirty flag tested false or CalcHash() was called on the receiver: proofs and exported paths (which serialise nodes directly, possibly after an update and before the next Root()/Commit) never carry a stale hash")
 	r.Rule("DOM-marked", "in markToCollect every success return of the branch arm and of the shared-prefix arm is dominated by toCollect = true on that node: a node on the path of a requested key is exported in full also when the key is absent below it (a later insert of that key rewrites exactly this node); in GetPath the branch root below which the parallel workers mark is itself marked before the workers start")
@@ -155,7 +156,7 @@ func agreeBranches(r *engine.Run) {
 func agreeEmbed(r *engine.Run) {
 	const rule = "AGREE-embed"
 	w := r.Fn(rule, pkgWMPT, "routingNode", "Serialize")
-	rd := r.Fn(rule, pkgWMPT, "", "DeserializeNode")
+	rd := branchDecoder(r, rule)
 	if w == nil || rd == nil {
 		return
 	}
@@ -346,6 +347,9 @@ func runC13(r *engine.Run) {
 	r.Rule("DOM-rollbackinstalls", "every return of RollbackTrie that is reachable after a storage operation is dominated by the store of the node argument into the root field: the rollback, which has no result, installs the requested root also when the purge of the rolled-back commit's nodes fails")
 	r.Rule("FRESH-hashbuf", "a node's hash, once computed, is an immutable value: in the weighted trie no value derived from a load of a node's hash field is the destination of copy, the base of append, the target of an element store or, re-sliced, an argument of a call. Hash() hands out the slice itself and the checkpoint, the scheduled deletes and the hash references keep it uncopied")
 	r.Rule("DOM-createdkept", "in Commit every reset of the created list (a store of nil / an empty slice into the field, directly or in a callee up to two levels down) is reached only on paths where the root's Dirty() tested true: a Commit that has nothing to save leaves the list a rollback works from alone")
+	r.Rule("FRESH-copy", "see C10: no return of Copy or CopyRoot is the receiver itself and no child slot of the copy is filled with the receiver's own child object: a checkpoint captured with CopyRoot shares no mutable node with the live trie (insert rewrites value nodes in place, so RollbackTrie to a sharing checkpoint restores the rolled-back value and weight under the checkpoint's root)")
+	r.Rule("ORDER-wait", "see C11: Commit closes the created and deleted channels and waits for the collector goroutines before it returns")
+	r.Rule("ORDER-joined", "see C11: every collector goroutine signals the WaitGroup Commit waits on, and as many are added as are started (a collector that is not joined appends the checkpoint's replaced hashes after a rollback has reset the lists, and two collection passes later the checkpoint root is deleted from storage)")
 	r.NotDec = append(r.NotDec, "resolvability of every checkpoint node after rollback for every history (value-level)")
 	agreeRollback(r)
 	agreeCheckpoint(r)
@@ -358,6 +362,9 @@ func runC13(r *engine.Run) {
 	domCreatedKept(r, "DOM-createdkept")
 	domRollbackInstalls(r, "DOM-rollbackinstalls")
 	freshHashBuf(r, "FRESH-hashbuf")
+	freshCopy(r, "FRESH-copy")
+	orderWait(r, "ORDER-wait")
+	orderJoined(r, "ORDER-joined")
 }
 
 func bookkeepingResets(f *ssa.Function) (map[string]bool, bool, bool) {
@@ -704,6 +711,47 @@ func decLimitsDepth(f *ssa.Function, depth int) map[string]string {
 				out[k] = v
 			}
 		})
+		if len(out) > 0 || f.Pkg == nil {
+			return
+		}
+		// a decoding mode built once and kept in a package-level variable: the
+		// options are set where that variable is initialised
+		initf := f.Pkg.Func("init")
+		if initf == nil {
+			return
+		}
+		engine.Instrs(f, func(in ssa.Instruction) {
+			ld, ok := in.(*ssa.UnOp)
+			if !ok || ld.Op != token.MUL {
+				return
+			}
+			g, ok := ld.X.(*ssa.Global)
+			if !ok || !strings.Contains(g.Type().String(), "cbor") {
+				return
+			}
+			engine.Instrs(initf, func(in2 ssa.Instruction) {
+				st, ok := in2.(*ssa.Store)
+				if !ok || st.Addr != ssa.Value(g) {
+					return
+				}
+				v := st.Val
+				if ex, ok := v.(*ssa.Extract); ok {
+					v = ex.Tuple
+				}
+				if c, ok := v.(*ssa.Call); ok {
+					if h := c.Call.StaticCallee(); h != nil && len(h.Blocks) > 0 && h.Pkg == f.Pkg {
+						for k, x := range decLimitsDepth(h, depth+1) {
+							out[k] = x
+						}
+						return
+					}
+				}
+				// built inline in the package initialiser
+				for k, x := range decLimitsDepth(initf, 2) {
+					out[k] = x
+				}
+			})
+		})
 	}()
 	engine.Instrs(f, func(in ssa.Instruction) {
 		st, ok := in.(*ssa.Store)
@@ -738,6 +786,18 @@ func agreeLimits(r *engine.Run, rule string) {
 	}
 	r.Check(same && len(a) > 0, rule, "wmpt.Deserialize/VerifyBlockProof|DecOptions", r.P.Pos(v.Pos()), fmt.Sprintf("both decode with %v", a),
 		fmt.Sprintf("the export importer decodes with %v but the proof verifier with %v: honest proofs or exports of a deep or wide trie are rejected by one of them", a, b))
+	// an export is one CBOR array of node records whose length grows with the number
+	// of requested keys: the importer must lift the library's default array limit
+	// (131072 elements), or an honest export of a large key set is rejected
+	const cborDefaultMaxArray = 131072
+	lifted := false
+	if x, ok := a["MaxArrayElements"]; ok {
+		if n, err := strconv.ParseInt(x, 10, 64); err == nil && n > cborDefaultMaxArray {
+			lifted = true
+		}
+	}
+	r.Check(lifted, rule, "wmpt.Deserialize|MaxArrayElements", r.P.Pos(d.Pos()), "the importer raises the CBOR array limit above the library default: "+a["MaxArrayElements"],
+		fmt.Sprintf("the export importer decodes with %v: the number of node records in an export is bounded by the CBOR library's default array limit (%d), so the export for a large set of requested keys is produced but cannot be imported", a, cborDefaultMaxArray))
 }
 
 // domMarked: every node that markToCollect reaches on the path of a requested
@@ -785,6 +845,98 @@ func domMarked(r *engine.Run, rule string) {
 			}
 			r.Check(good, rule, o.next(fn(f)+"|*"+kind+" arm success"), r.P.Pos(ret.Pos()), "the node is marked (toCollect = true) before the arm returns successfully",
 				"a node on the path of a requested key is returned unmarked: it is exported as a bare hash, and an insert of that (absent) key fails or diverges on the partial trie")
+		}
+	}
+	// the shared-prefix arm goes on below the node whenever the node's key matches the
+	// requested key at this position: a success return of the arm that is not reached
+	// through the recursion on the node's child is reached only where the match failed
+	// (bytes.Equal / HasPrefix tested false, or the rest of the key tested shorter than
+	// the node's key). The value below a matching leaf may be collapsed to a hash: only
+	// the recursion loads it, and an export that carries the bare hash cannot be updated.
+	if arm := arms["shortNode"]; arm != nil {
+		var rec []*ssa.Call
+		engine.Instrs(f, func(in ssa.Instruction) {
+			c, ok := in.(*ssa.Call)
+			if !ok || c.Call.StaticCallee() != f || !arm.blocks[c.Block()] {
+				return
+			}
+			for _, a := range c.Call.Args {
+				if base, fld, ok := loadOfField(a); ok && base == arm.asserted && fld == "value" {
+					rec = append(rec, c)
+				}
+			}
+		})
+		if len(rec) == 0 {
+			r.Anchor(rule, fmt.Errorf("unresolved anchor: recursion of markToCollect on the shared-prefix node's child"))
+		} else {
+			need := map[string]bool{} // atom key -> truth that establishes the mismatch
+			for _, b := range f.Blocks {
+				iff, ok := b.Instrs[len(b.Instrs)-1].(*ssa.If)
+				if !ok {
+					continue
+				}
+				v := iff.Cond
+				for {
+					if u, ok := v.(*ssa.UnOp); ok && u.Op == token.NOT {
+						v = u.X
+						continue
+					}
+					break
+				}
+				key, _ := engine.CondAtom(iff.Cond)
+				switch x := v.(type) {
+				case *ssa.Call:
+					if extCalleeIs(x, "bytes", "", "Equal") || extCalleeIs(x, "bytes", "", "HasPrefix") {
+						need[key] = false
+					}
+				case *ssa.BinOp:
+					var lo, hi ssa.Value
+					switch x.Op {
+					case token.LSS:
+						lo, hi = x.X, x.Y
+					case token.GTR:
+						lo, hi = x.Y, x.X
+					}
+					if hi != nil && isLenOfField(hi, arm.asserted) && !strings.Contains(engine.ValKey(lo), engine.ValKey(hi)) {
+						need[key] = true
+					}
+				}
+			}
+			avoid := map[*ssa.BasicBlock]bool{}
+			for _, c := range rec {
+				avoid[c.Block()] = true
+			}
+			o := ord{}
+			for _, ret := range engine.Returns(f) {
+				if !arm.blocks[ret.Block()] || len(ret.Results) != 2 || !nilConst(ret.Results[1]) {
+					continue
+				}
+				dominated := false
+				for _, c := range rec {
+					if c.Block() == ret.Block() || c.Block().Dominates(ret.Block()) {
+						dominated = true
+					}
+				}
+				if dominated {
+					continue
+				}
+				n++
+				paths, ok := engine.PathFactsAvoid(f, ret.Block(), avoid, 4096)
+				good := ok
+				for _, p := range paths {
+					hit := false
+					for k, want := range need {
+						if got, has := p[k]; has && got == want {
+							hit = true
+						}
+					}
+					if !hit {
+						good = false
+					}
+				}
+				r.Check(good, rule, o.next(fn(f)+"|*shortNode arm stops"), r.P.Pos(ret.Pos()), "the arm stops without descending only where the node's key was tested not to match the requested key",
+					"markToCollect stops at a shared-prefix node whose key matches the requested key without descending into its child: a child that is collapsed to a hash is never loaded, so the export carries a bare hash for a requested key's value and the partial trie cannot update or delete that key (the full trie can)")
+			}
 		}
 	}
 	// GetPath's parallel collection starts below a branch root: the root itself
